@@ -194,7 +194,10 @@ func (l *PartitionLog) RestoreFromS3(ctx context.Context) (int64, error) {
 			l.onS3Op("download_index", time.Since(startTime), err)
 		}
 		if err != nil {
-			if errors.Is(err, ErrNotFound) && seg.baseOffset >= l.nextOffset {
+			// A segment whose .index was never stored was never acknowledged (uploadFlush reports success only
+			// after both uploads): it is a leftover of an interrupted flush wherever it sits, also below the
+			// published offset when later flushes succeeded. Skip it instead of failing the restore forever.
+			if errors.Is(err, ErrNotFound) {
 				l.logger().Warn("skipping orphaned segment: missing .index",
 					"topic", l.topic, "partition", l.partition,
 					"segment_base", seg.baseOffset, "next_offset", l.nextOffset,
